@@ -40,6 +40,9 @@ union U @d ( a : [ { k : EN } ] ) = Q extend union U @d ( a : [ { k : EN } ] ) =
 enum E @d ( a : [ { k : EN } ] ) { A @d ( a : [ { k : EN } ] ) } extend enum E @d ( a : EN ) { B @d ( a : EN ) }
 input In @d ( a : [ { k : EN } ] ) { x : Int = [ { k : EN } ] @d ( a : [ { k : EN } ] ) } extend input In @d ( a : EN ) { y : Int = EN @d ( a : EN ) } extend input In @d ( a : [ EN ] )
 directive @d ( a : Int = [ { k : EN } ] @d ( a : [ { k : EN } ] ) ) repeatable on FIELD`,
+	// several schema extensions: directive-only ones before, between and after those that add root operation types
+	`schema { query : A } extend schema @e extend schema { mutation : B } extend schema @e @e extend schema @e { subscription : C } extend schema @e
+type A { f : Int } type B { g : Int } type C { h : Int } directive @e repeatable on SCHEMA`,
 	`type A { f : Int }
 """
 block
